@@ -835,6 +835,41 @@ func (rn *runner) classify(m string, sh *Shape, field bool, kind string, got, wa
 	return "other"
 }
 
+// waitVisible waits (bounded) until the listing shows every series the reference expects: index items become searchable
+// only after the periodic index flush, and a DROP SERIES or a read issued earlier would not be about the written data yet.
+// It never waits for series to DISAPPEAR and it decides nothing: the read matrix that follows is what is judged.
+func (rn *runner) waitVisible() {
+	deadline := time.Now().Add(12 * time.Second)
+	for _, m := range rn.h.Msts {
+		want := map[string]bool{}
+		for _, x := range rn.liveRows(m, nil, false) {
+			want[rn.h.Series[x.S].id()] = true
+		}
+		for len(want) > 0 && time.Now().Before(deadline) {
+			ss, err := rn.s.query(rn.h.DB, "show series from "+fullMst(rn.h, m))
+			have := map[string]bool{}
+			if err == nil {
+				for _, s := range ss {
+					for _, r := range s.Values {
+						k, _ := r[0].(string)
+						have[k] = true
+					}
+				}
+			}
+			missing := 0
+			for k := range want {
+				if !have[k] {
+					missing++
+				}
+			}
+			if missing == 0 {
+				break
+			}
+			time.Sleep(300 * time.Millisecond)
+		}
+	}
+}
+
 // readRaw asks one raw select and records it as a step of its own (used right before / right after the drop statement)
 func (rn *runner) readRaw(phase, m string, sh Shape, sql string) {
 	o := Obs{Shape: sh.Name, Mst: m}
@@ -1086,6 +1121,7 @@ func main() {
 	_ = srv.ctrl("mod=flush") // W1 is in files now; W2 (older timestamps) stays in the memtable until after the drop
 	step("write2", func(rn *runner) error { rn.ref.add(rn.h.W2); return rn.writePoints(rn.h.W2) })
 	settle()
+	step("visible1", func(rn *runner) error { rn.waitVisible(); return nil })
 	step("before", func(rn *runner) error { rn.readAll("before", rn.h.PrimeTF); return nil })
 	// phase 2: the drop
 	step("drop", func(rn *runner) error {
@@ -1158,6 +1194,7 @@ func main() {
 		return rn.writePoints(h.W3)
 	})
 	settle()
+	step("visible2", func(rn *runner) error { rn.waitVisible(); return nil })
 	step("after-writes", func(rn *runner) error { rn.readAll("after-writes", false); return nil })
 	// phase 4: flush (+ whatever compaction / merge the store decides to run on the files it now has)
 	_ = srv.ctrl("mod=flush")
